@@ -32,7 +32,10 @@ GEN = []
 MODELS = ["OptiVerif.Model.Filter"]
 RULE = ("cases = (device LPF|BPF, order 1..8, cut-off/fs in (0.01,0.45) incl. both ends, fs = sps*R or explicit, N from padding+1 to 300 "
         "(2000 thorough) incl. powers of two and primes, ndarray(float|int)|container input, real|complex dtype, 1|2 polarisations, "
-        "with|without noise, amplitude scale 1e-3..50) + tone / pulse / retH / too-short records; non-trivial = filter applied to a "
+        "with|without noise, amplitude scale 1e-3..50; a third of the cases draw the absolute cut-off from {1,2,4} GHz so that the same (BW, order) "
+        "recurs in one process under different sampling rates) + histories (same BW and order under 3 sampling rates in sequence and back, "
+        "via gv or LPF's fs=, each call sent to the model and compared with a freshly designed scipy reference) "
+        "+ tone / pulse / retH / too-short records; non-trivial = filter applied to a "
         "non-constant record longer than the padding; distinct by all parameters and the data seed")
 PARTIAL = [
     "-6.0 dB at cut-off (BW for LPF, BW/2 either side of the carrier for BPF): depends on scipy's Bessel design (norm='mag'); oracle: tone at the cut-off fitted in the central third of a long record, |att-6.0206 dB| <= 0.05 dB",
@@ -49,6 +52,10 @@ BUDGET = {"quick": 120, "thorough": 900}
 
 ATT_DB = 20 * math.log10(2.0)          # 6.0206: two passes of a prototype with -3.0103 dB at Wn
 GVS = [(16, 1e9), (8, 10e9), (4, 2.5e9), (33, 1e9), (16, 40e9)]
+# absolute cut-offs (Hz) that recur, within one process, under several sampling rates (history / memoisation of the design):
+# each is inside (0.01, 0.45)*fs for the first four entries of GVS (fs = 16, 80, 10, 33 GS/s)
+WN_FIXED = [1e9, 2e9, 4e9]
+GVS_FIXED = GVS[:4]
 
 
 # ------------------------------------------------------------------------------------------------ generators
@@ -91,9 +98,13 @@ def gen_cases(rng, tier):
                 c = {"kind": dev, "order": order, "fcn": _fcn(rng), "n": n, "sps": sps, "R": R,
                      "noise": rng.random() < 0.5, "scale": rng.choice([1e-3, 1.0, 1.0, 50.0]), "seed": rng.getrandbits(32),
                      "a": [rng.uniform(-3, 3), rng.uniform(-3, 3)], "b": [rng.uniform(-3, 3), rng.uniform(-3, 3)]}
+                if rep % 3 == 2:
+                    # the SAME absolute cut-off recurs across cases of the run under different sampling rates
+                    c["sps"], c["R"] = rng.choice(GVS_FIXED)
+                    c["wn"] = rng.choice(WN_FIXED)
                 if dev == "lpf":
                     c["form"] = rng.choice(["ndarray", "ndarray-int", "container", "container", "container-complex"])
-                    c["fs_arg"] = rng.choice([None, None, 3.3e9, 7e10])
+                    c["fs_arg"] = rng.choice([None, None, 3.3e9, 7e10]) if "wn" not in c else rng.choice([None, None, 33e9, 80e9])
                     if not c["form"].startswith("container"):
                         c["noise"] = False
                     c["npol"] = 1
@@ -111,6 +122,11 @@ def gen_cases(rng, tier):
                           "order": order, "fcn": fcn, "sps": sps, "R": R, "npol": rng.choice([1, 2]),
                           "phase": rng.uniform(0, 6.28), "amp": rng.choice([0.01, 1.0, 7.0]), "seed": rng.getrandbits(32),
                           "fs_arg": rng.choice([None, 3.3e9, 7e10])})
+            if k >= 1 and k % 2 == 1:
+                t = cases[-1]
+                t["sps"], t["R"] = rng.choice(GVS_FIXED)
+                t["wn"] = rng.choice(WN_FIXED)
+                t["fs_arg"] = rng.choice([None, None, 33e9, 80e9])
         for k in range(1 if quick else 4):
             sps, R = rng.choice(GVS)
             cases.append({"kind": "pulse", "dev": rng.choice(["lpf", "bpf"]), "order": order, "fcn": _fcn(rng), "sps": sps, "R": R,
@@ -124,6 +140,15 @@ def gen_cases(rng, tier):
                       "n": rng.choice([1, 2, _edge(order) - 1, _edge(order)]), "sps": 16, "R": 1e9,
                       "npol": rng.choice([1, 2]) if sdev == "bpf" else 1,
                       "noise": False, "scale": 1.0, "seed": rng.getrandbits(32), "form": "container"})
+    # histories: the same (BW, order) under 3 sampling rates in sequence and back to the first, inside ONE run_impl
+    for order in range(1, 9):
+        for hdev in (["lpf", "bpf", "lpf-fs"] if not quick else [["lpf", "bpf", "lpf-fs"][(order + j) % 3] for j in range(2)]):
+            for _ in range(1 if quick else 3):
+                seq = rng.sample(GVS_FIXED, 3)
+                seq = seq + [seq[0]]
+                cases.append({"kind": "hist", "dev": hdev, "order": order, "wn": rng.choice(WN_FIXED), "seq": [list(g) for g in seq],
+                              "sps": seq[0][0], "R": seq[0][1], "n": rng.randint(_edge(order) + 1, 90), "npol": rng.choice([1, 2]) if hdev == "bpf" else 1,
+                              "noise": rng.random() < 0.5, "scale": 1.0, "seed": rng.getrandbits(32)})
     rng.shuffle(cases)
     return cases
 
@@ -320,6 +345,8 @@ def run_impl(case):
                     _run_pulse(case, devn, fs, spy, res)
                 elif kind == "reth":
                     _run_reth(case, fs, spy, res)
+                elif kind == "hist":
+                    _run_hist(case, spy, res)
                 else:
                     raise ValueError("unknown kind")
     except Timeout as e:
@@ -334,10 +361,18 @@ def run_impl(case):
     return res
 
 
+def _bw(case, devn, fs):
+    """the BW argument: from the normalised cut-off, or an absolute cut-off `wn` (then fcn is derived and stored)"""
+    if "wn" in case:
+        case["fcn"] = case["wn"] / fs
+        return case["wn"] * (2.0 if devn == "bpf" else 1.0)
+    return case["fcn"] * fs * (2.0 if devn == "bpf" else 1.0)
+
+
 def _run_main(case, devn, fs, spy, res):
     s, nz, s2, nz2 = _data(case)
     npol = case["npol"]
-    bw = case["fcn"] * fs * (2.0 if devn == "bpf" else 1.0)
+    bw = _bw(case, devn, fs)
     form = case.get("form", "container")
     x = np.array(s) if form.startswith("ndarray") else _mk(devn, s, nz, npol)
     try:
@@ -389,10 +424,11 @@ def _run_main(case, devn, fs, spy, res):
 
 
 def _run_tone(case, devn, fs, spy, res):
+    bw = _bw(case, devn, fs)
     fc = case["fcn"]
+    res["fcn"] = fc
     n = _tone_len(fc)
     k = np.arange(n)
-    bw = fc * fs * (2.0 if devn == "bpf" else 1.0)
     top = 0.49
     fns = [0.25 * fc, 0.6 * fc, fc, fc + 0.15 * (top - fc), fc + 0.4 * (top - fc), fc + 0.7 * (top - fc), top]
     if devn == "bpf":
@@ -416,10 +452,81 @@ def _run_tone(case, devn, fs, spy, res):
     res["params"], res["remarks"] = _params(spy)
 
 
+def _step_case(case, i):
+    """the data-defining pseudo-case of step i of a history"""
+    d = case["dev"]
+    return {"kind": "bpf" if d == "bpf" else "lpf", "n": case["n"], "npol": case["npol"], "noise": case["noise"], "scale": case["scale"],
+            "seed": (case["seed"] + 7919 * i) % (1 << 32), "form": "container"}
+
+
+def _run_hist(case, spy, res):
+    """same BW and order, sampling rate changing between the calls (gv, or LPF's explicit fs=), back to the first at the end"""
+    from opticomlib.typing import gv
+    from opticomlib.devices import LPF, BPF
+    hdev = case["dev"]
+    devn = "bpf" if hdev == "bpf" else "lpf"
+    order, wn, npol = case["order"], case["wn"], case["npol"]
+    bw = wn * (2.0 if devn == "bpf" else 1.0)
+    ob, of = spy.orig
+    steps = []
+    res.update(status="ok", steps=steps)
+
+    def call(x, fs_arg):
+        if devn == "bpf":
+            return BPF(x, bw, order)
+        return LPF(x, bw, order, fs=fs_arg) if fs_arg else LPF(x, bw, order)
+    for i, (sps, R) in enumerate(case["seq"]):
+        st = {"i": i}
+        steps.append(st)
+        if hdev == "lpf-fs":
+            gv.clean()
+            gv(sps=case["seq"][0][0], R=case["seq"][0][1])       # gv stays put; the rate is given explicitly
+            fs, fs_arg = float(sps * R), float(sps * R)
+        else:
+            gv.clean()
+            gv(sps=sps, R=R)
+            fs, fs_arg = float(gv.fs), None
+        st["fs"] = fs
+        fcn = wn / fs
+        st["fcn"] = fcn
+        s, nz, _, _ = _data(_step_case(case, i))
+        spy.bessel.clear()
+        spy.ff.clear()
+        spy.on = True
+        try:
+            y = call(_mk(devn, s, nz, npol), fs_arg)
+        except Exception as e:  # noqa
+            st.update(status="err", err=exc_enum(e), detail=repr(e)[:200])
+            spy.on = False
+            st["params"], st["remarks"] = _params(spy)
+            continue
+        finally:
+            spy.on = False
+        st["params"], st["remarks"] = _params(spy)
+        st.update(status="ok", cls=type(y).__name__, shape=list(y.signal.shape), out=_pack(_rows(y.signal)),
+                  out_noise=None if y.noise is None else _pack(_rows(y.noise)), scale=max(_maxabs(s), 1e-300))
+        # reference: the prototype designed NOW for the rate in force, applied by scipy itself (unspied originals)
+        sos_ref = ob(N=order, Wn=wn, btype="low", fs=fs, output="sos", norm="mag")
+        ref = of(sos_ref, s, axis=-1)
+        ref = ref if devn == "bpf" else ref.real
+        st["ref_err"] = _maxabs(y.signal - ref) if y.signal.shape == ref.shape else None
+        if nz is not None and y.noise is not None:
+            refn = of(sos_ref, nz, axis=-1)
+            refn = refn if devn == "bpf" else refn.real
+            st["ref_err_noise"] = _maxabs(y.noise - refn) if y.noise.shape == refn.shape else None
+        # -6 dB clause at this rate
+        nt = _tone_len(fcn)
+        k = np.arange(nt)
+        tone = np.exp(2j * np.pi * fcn * k) if devn == "bpf" else np.cos(2 * np.pi * fcn * k + 0.4)
+        yt = call(_mk(devn, tone, None, 1), fs_arg).signal
+        g, resid = _fit(tone, yt, fcn, nt // 3, 2 * nt // 3, devn == "bpf")
+        st["tone"] = {"fn": fcn, "g": abs(g), "ph": float(np.angle(g)), "resid": resid}
+
+
 def _run_pulse(case, devn, fs, spy, res):
     fc = case["fcn"]
     n = _tone_len(fc) | 1
-    bw = fc * fs * (2.0 if devn == "bpf" else 1.0)
+    bw = _bw(case, devn, fs)
     m = int(case["pos"] * n)
     k = np.arange(n)
     width = max(1.5, 0.4 / fc)
@@ -488,6 +595,13 @@ def _enc_rows(a):
 
 
 def model_requests(case, res):
+    if case["kind"] == "hist":
+        reqs = []
+        for st in res.get("steps") or []:
+            if st.get("params"):
+                s, nz, _, _ = _data(_step_case(case, st["i"]))
+                reqs.append(_request("bpf" if case["dev"] == "bpf" else "lpf", st["params"], s, nz))
+        return reqs
     if case["kind"] not in ("lpf", "bpf", "short"):
         return []
     p = res.get("params")
@@ -497,6 +611,10 @@ def model_requests(case, res):
     devn = case.get("dev", case["kind"])
     if case.get("form", "container").startswith("ndarray"):
         nz = None
+    return [_request(devn, p, s, nz)]
+
+
+def _request(devn, p, s, nz):
     secs = [str(len(p["sos"]))]
     for row, z in zip(p["sos"], p["zi"]):
         secs += [enc_f(row[0]), enc_f(row[1]), enc_f(row[2]), enc_f(row[4]), enc_f(row[5]), enc_f(z[0]), enc_f(z[1])]
@@ -528,42 +646,65 @@ def _cmp(name, m_rows, i_arr, tol):
     return []
 
 
+def _hyp(p):
+    """hypotheses of theorem dc_gain on what scipy returned for this very call"""
+    out = []
+    if not (p["steady_resid"] <= 1e-9):
+        out.append(f"hypothesis SteadyState(sos, zi) of dc_gain fails on scipy's coefficients: residual {p['steady_resid']:.3e}")
+    if not (abs(p["gain_prod"] - 1.0) <= 1e-9):
+        out.append(f"hypothesis prod(sum b/sum a) = 1 of dc_gain fails on scipy's coefficients: {p['gain_prod']!r}")
+    return out
+
+
+def _compare_reply(devn, st, reply, s, n):
+    """one implementation call (dict with status/err/out/out_noise) against one model reply"""
+    out = []
+    if st.get("status") == "err":
+        if reply != "err " + st["err"]:
+            out.append(f"implementation raised {st['err']}, model replied {reply[:60]}")
+        return out
+    if st.get("status") != "ok":
+        return out
+    if not reply.startswith("ok "):
+        return [f"implementation returned a result, model replied {reply[:60]}"]
+    m_rows, m_noise = _read_sig(reply, devn == "bpf")
+    tol = 1e-12 * max(_maxabs(s), 1e-300) * n
+    out += _cmp("signal", m_rows, _unpack(st["out"]), tol)
+    if (m_noise is None) != (st["out_noise"] is None):
+        out.append(f"noise: model {'none' if m_noise is None else 'present'}, implementation {'none' if st['out_noise'] is None else 'present'}")
+    elif m_noise is not None:
+        out += _cmp("noise", m_noise, _unpack(st["out_noise"]), tol)
+    return out
+
+
 def compare(case, res, reqs, replies):
+    if case["kind"] == "hist":
+        out, pos = [], 0
+        for st in res.get("steps") or []:
+            pre = f"history step {st['i']} (fs={st.get('fs'):.4g}): "
+            out += [pre + "model parameters: " + rm for rm in st.get("remarks") or []]
+            if st.get("params"):
+                out += [pre + h for h in _hyp(st["params"])]
+                s, _, _, _ = _data(_step_case(case, st["i"]))
+                out += [pre + d for d in _compare_reply("bpf" if case["dev"] == "bpf" else "lpf", st, replies[pos], s, case["n"])]
+                pos += 1
+            else:
+                out.append(pre + "no filter coefficients observed")
+        return out
     out = []
     p = res.get("params")
     for rm in res.get("remarks") or []:
         out.append("model parameters: " + rm)
     if p:
-        # hypotheses of theorem dc_gain on what scipy returned for this very call
-        if not (p["steady_resid"] <= 1e-9):
-            out.append(f"hypothesis SteadyState(sos, zi) of dc_gain fails on scipy's coefficients: residual {p['steady_resid']:.3e}")
-        if not (abs(p["gain_prod"] - 1.0) <= 1e-9):
-            out.append(f"hypothesis prod(sum b/sum a) = 1 of dc_gain fails on scipy's coefficients: {p['gain_prod']!r}")
+        out += _hyp(p)
     if not reqs:
         if case["kind"] in ("lpf", "bpf", "short") and not p and res.get("status") != "timeout":
             out.append("no filter coefficients observed: the implementation did not reach scipy.signal")
         return out
-    reply = replies[0]
-    devn = case.get("dev", case["kind"])
-    if res.get("status") == "err":
-        if reply != "err " + res["err"]:
-            out.append(f"implementation raised {res['err']}, model replied {reply[:60]}")
-        return out
-    if res.get("status") != "ok":
-        return out
-    if not reply.startswith("ok "):
-        return out + [f"implementation returned a result, model replied {reply[:60]}"]
-    m_rows, m_noise = _read_sig(reply, devn == "bpf")
+    # both sides execute the same IEEE operations in the same order (observed difference: 0); the tolerance 1e-12*scale*n only
+    # leaves room for a differently compiled scipy (FMA contraction)
     s, _, _, _ = _data(case)
-    # both sides execute the same IEEE operations in the same order (observed difference: 0); the tolerance only leaves room
-    # for a differently compiled scipy (FMA contraction)
-    tol = 1e-12 * max(_maxabs(s), 1e-300) * case["n"]
-    out += _cmp("signal", m_rows, _unpack(res["out"]), tol)
-    if (m_noise is None) != (res["out_noise"] is None):
-        out.append(f"noise: model {'none' if m_noise is None else 'present'}, implementation {'none' if res['out_noise'] is None else 'present'}")
-    elif m_noise is not None:
-        out += _cmp("noise", m_noise, _unpack(res["out_noise"]), tol)
-    return out
+    return out + _compare_reply(case.get("dev", case["kind"]), res, replies[0], s, case["n"])
 
 
 # ------------------------------------------------------------------------------------------------ oracle
@@ -616,8 +757,10 @@ def oracle(case, res):
             if res.get("const_noise") is not None and not (res["const_noise"] <= 1e-9 * n):
                 v.append((f"C11:{devn}-dc-gain-noise", f"a constant noise component is changed by {res['const_noise']:.3e} (relative)"))
         return v
+    if kind == "hist":
+        return _oracle_hist(case, res)
     if kind == "tone":
-        fc = case["fcn"]
+        fc = res.get("fcn", case["fcn"])
         rows = res["rows"]
         for r in range(rows):
             gs = [g for i, g in enumerate(res["gains"]) if i % rows == r]
@@ -665,6 +808,31 @@ def oracle(case, res):
     return v
 
 
+def _oracle_hist(case, res):
+    """every call of a history must be the filter for the sampling rate in force at THAT call"""
+    v = []
+    hdev = case["dev"]
+    devn = "bpf" if hdev == "bpf" else "lpf"
+    n = case["n"]
+    for st in res["steps"]:
+        where = f"call {st['i'] + 1} of {len(res['steps'])} with the same BW and order, fs={st['fs']:.4g} (cut-off {st['fcn']:.4f} fs)"
+        if st.get("status") != "ok":
+            v.append((f"C11:{hdev}-history-raises", f"{where}: {st.get('detail')}"))
+            continue
+        tol = 1e-9 * st["scale"] * n
+        if st.get("ref_err") is None or not st["ref_err"] <= tol:
+            v.append((f"C11:{hdev}-history-stale-design", f"{where}: output differs from the Bessel(norm='mag') prototype designed for "
+                                                         f"this rate, applied forward-backward, by {st.get('ref_err')}"))
+        if "ref_err_noise" in st and (st["ref_err_noise"] is None or not st["ref_err_noise"] <= tol):
+            v.append((f"C11:{hdev}-history-stale-design-noise", f"{where}: noise output differs from the reference by {st['ref_err_noise']}"))
+        g = st["tone"]
+        if _clean(g):
+            att = -20 * math.log10(max(g["g"], 1e-300))
+            if not abs(att - ATT_DB) <= 0.05:
+                v.append((f"C11:{hdev}-history-cutoff-6dB", f"{where}: tone at the cut-off attenuated by {att:.4f} dB, 6.0 dB required"))
+    return v
+
+
 def features(case, res):
     kind = case["kind"]
     f = ["kind=" + kind, "status=" + str(res.get("status")), f"order={case['order']}"]
@@ -676,8 +844,12 @@ def features(case, res):
             f.append("fs=explicit" if case.get("fs_arg") else "fs=gv")
     elif kind != "reth":
         f.append("dev=" + case["dev"])
+    if "wn" in case:
+        f.append(f"recurring-cutoff={case['wn']:.0e}Hz@fs={res.get('fs', 0):.3g}" if kind != "hist" else f"history-cutoff={case['wn']:.0e}Hz")
+    if kind == "hist":
+        f.append(f"history-steps-ok={sum(1 for st in res.get('steps') or [] if st.get('status') == 'ok')}")
     if kind == "tone" and res.get("status") == "ok":
-        at_cut = [g for g in res["gains"] if abs(abs(g["fn"]) - case["fcn"]) < 1e-15]
+        at_cut = [g for g in res["gains"] if abs(abs(g["fn"]) - res.get("fcn", case["fcn"])) < 1e-15]
         f.append("cutoff-tone-measured" if at_cut and all(_clean(g) for g in at_cut) else "cutoff-tone-NOT-stationary")
         f.append(f"stationary-tones={sum(1 for g in res['gains'] if _clean(g))}/{len(res['gains'])}")
     if res.get("status") == "err":
@@ -688,5 +860,5 @@ def features(case, res):
 def nontrivial_key(case, res):
     if res.get("status") != "ok" or case["kind"] == "short":
         return None
-    return (case["kind"], case.get("dev"), case["order"], case.get("fcn", case.get("kc")), case.get("n"), case["npol"],
+    return (case["kind"], case.get("dev"), case["order"], case.get("wn") or case.get("fcn", case.get("kc")), res.get("fs"), case.get("n"), case["npol"],
             case.get("form"), case.get("noise"), case["seed"])
